@@ -199,6 +199,7 @@ def run(chk):
     R = pe.apply(pe.getattr(d, "get_interpolation"), [tg], {})
     ok = isinstance(R, Arr) and tuple(R.shape) == (2, 3) and all(R[i, j] is dag.fn("b", dag.const(j), tg[i]) for i in range(2) for j in range(3))
     chk.decide(ok, "reinterpolation-matrix", fgi.qname, "get_interpolation(target) is not R[i][j] = basis_j(target_i)", where=fgi.where, how="PE")
+    permuted_target_rule(chk, src, "reinterpolation-matrix")
     n_tol = 0
     for mod in ("eko.interpolation", "eko.io.manipulate"):
         for q, f in src.funcs.items():
@@ -256,3 +257,33 @@ def run(chk):
     chk.ok("invalid-grids-and-degrees-are-refused", disp.qname, "6 x 9 (points, degree) combinations", how="exhaustive PE")
     chk.note(lagrange=n_lag, layouts=n_lay, files=["src/eko/interpolation.py", "src/eko/io/manipulate.py"])
     chk.explanation = "Lagrange identity (symbolic nodes), block layouts (exhaustive), evaluation semantics, tolerance rule, guards."
+
+
+def permuted_target_rule(chk, src, rule):
+    """shared with C43 (a target grid given to apply / rotate_result goes through the same matrix)"""
+    xg_cls = src.cls(f"{IP}.XGrid")
+    disp = src.cls(f"{IP}.InterpolatorDispatcher")
+    bf_cls = src.cls(f"{IP}.BasisFunction")
+    fgi = disp.methods["get_interpolation"]
+    # a target grid made of the internal points in ANOTHER ORDER is not the internal grid: the matrix is the permutation, not the identity
+    pe = mk_pe(src)
+    pe.overrides[f"{bf_cls.qname}.evaluate_x"] = lambda p, a, k: dag.fn("b", dag.const(a[0].attrs["j"]), dag.tonode(a[1]))
+    pts = [Fraction(1, 10), Fraction(1, 2), Fraction(1)]
+    g = pe.instantiate(xg_cls.qname, [list(pts)], {"log": False})
+    d = Obj(disp)
+    basis = []
+    for j in range(3):
+        b = Obj(bf_cls)
+        b.attrs.update(j=j)
+        basis.append(b)
+    d.attrs.update(basis=basis, xgrid=g, log=False, polynomial_degree=1)
+    tg = list(reversed(pts))
+    try:
+        R = pe.apply(pe.getattr(d, "get_interpolation"), [Arr.from_nested(tg)], {})
+        ok = isinstance(R, Arr) and tuple(R.shape) == (3, 3) and all(R[i, j] is dag.fn("b", dag.const(j), dag.tonode(tg[i])) for i in range(3) for j in range(3))
+        got = "the identity" if isinstance(R, Arr) and all(dag.as_const(dag.tonode(R[i, j])) == (1 if i == j else 0) for i in range(3) for j in range(3)) else "another matrix"
+    except PERaise as e:
+        ok, got = False, f"raises {e}"
+    chk.decide(ok, rule, fgi.qname, f"the internal points in descending order as target grid: get_interpolation returns {got}; "
+               f"required R[i][j] = basis_j(target_i) (a permutation): results come back in the order of the target grid", where=fgi.where,
+               instance="permuted internal grid", how="PE")
